@@ -79,7 +79,13 @@ class PrefixSid(Attribute):
         return cls(sr_attrs=sr_attrs, packed=original)
 
     def json(self, compact: bool | None = None) -> str:
-        content: str = ', '.join(d.json() for d in self.sr_attrs)
+        # every TLV renders as one member, and a JSON object cannot hold a key twice: a TLV the peer
+        # sent more than once is reported once, its first occurrence - the one __str__ shows as well
+        members: dict[str, str] = {}
+        for sr_attr in self.sr_attrs:
+            member = sr_attr.json()
+            members.setdefault(member.split(':', 1)[0], member)
+        content: str = ', '.join(members.values())
         return f'{{ {content} }}'
 
     def __str__(self) -> str:
